@@ -46,6 +46,37 @@ var c10Corpus = []string{
 	"let big = numbers(200).map(e -> e + 1).map(e -> e * 3); big[a * 7 % 200] + big.indexWhere(e -> e > a * 9)",
 }
 
+// every lazy stage as a constant (argument-free, folded by the optimizer) that is then consumed lazily,
+// partially and repeatedly with the argument; and operators that take a constant list as left operand
+func c10ConstSweep() []string {
+	stages := []string{
+		"numbers(40).map(e -> e * 3)", "numbers(40).accept(e -> e % 3 = 0)", "[1, 4, 7, 10].merge([2, 3, 9, 11], (p, q) -> p < q)",
+		"numbers(40).combine((p, q) -> p * q)", "numbers(40).combine3((p, q, r) -> p + q * r)", "numbers(40).combineN(3, w -> w[0] + w[2])",
+		"numbers(40).iir(e -> e, (e, l) -> l + e)", "numbers(40).number((n, e) -> n * e)", "[1, 1, 2, 2, 3, 1].compact((p, q) -> p = q)",
+		"[1, 2, 3].cross([10, 20], (p, q) -> p + q)", "numbers(40).top(25)", "numbers(40).skip(5)", "numbers(20) + numbers(20).map(e -> e + 100)",
+		"numbers(2000).combine((p, q) -> p * q).map(x -> x % 7)", "numbers(40).map(e -> e + 1).combine((p, q) -> p + q).accept(e -> e % 2 = 1)",
+		"numbers(30).iirCombine(e -> e, (le, e, l) -> l + e - le)", "numbers(12).fsm((s, e) -> goto((s.state + e) % 3)).map(m -> m.state)",
+		"[3, 1, 2].order(e -> e)", "[3, 1, 2].reverse()", // (groupBy*/unique* have an unspecified order: excluded by the property)
+	}
+	uses := []string{
+		"c.map(x -> x * a).top(a % 5 + 1)", "c.mapReduce(a, (s, x) -> s + x)", "c.top(a % 7).size() + c.skip(a % 7).size()", "c.first() + a",
+		"c.accept(x -> x % (a % 3 + 2) = 0)", "[c.size(), c.map(x -> x + a).sum()]", "c.indexWhere(x -> x > a * 3)", "c.append(a).size() + c.size()",
+		"c.map(x -> x + a)", "(c ~ (c + [a])) & ([c.first()] ~ c)",
+	}
+	var res []string
+	for _, st := range stages {
+		for _, u := range uses {
+			res = append(res, "let c = "+st+"; "+u)
+		}
+	}
+	res = append(res,
+		"[1, 2, 3] ~ [1, 2, 3, a]", "let need = [1, 2, 3]; (need ~ [3, 2, 1, a]) & (need.size() = 3) & (need[0] = 1)",
+		"let need = [1, 2, 3]; if need ~ [1, 2, 3, 4] then need.string() + a else \"no\"",
+		"let off = a * 100; (x -> x + off)", "let f = x -> x * a; [1, 2, 3].map(f)", "[1, 2, 3].map(x -> x * a)",
+		"let off = a * 100; {f: x -> x + off, l: [1, 2].map(x -> x + off)}")
+	return res
+}
+
 type histProg struct {
 	src string
 	iso map[int]string // isolated outcome per argument (fresh generator, first evaluation)
@@ -57,6 +88,7 @@ func isolatedOutcome(src string, a int) string {
 
 func genC10Programs(c *Ctx, n, depth int) []string {
 	progs := append([]string{}, c10Corpus...)
+	progs = append(progs, c10ConstSweep()...)
 	for i := 0; i < n; i++ {
 		g := newProgGen(c.rng)
 		g.enterBody("a")
@@ -104,7 +136,11 @@ func runC10(c *Ctx) {
 			}
 		}
 		iso := map[int]string{}
-		var held []value.Value
+		type heldResult struct {
+			v value.Value
+			a int
+		}
+		var held []heldResult
 		distinctArgs := map[int]bool{}
 		evals := 0
 		ok := true
@@ -123,15 +159,51 @@ func runC10(c *Ctx) {
 				// consume a held result late (or half)
 				if len(held) > 0 {
 					k := c.rng.Intn(len(held))
-					if l, isList := held[k].(*value.List); isList {
-						st := funcGen.NewEmptyStack[value.Value]()
-						if c.rng.Intn(2) == 0 {
-							l.First(st)
-						} else {
-							l.Size(st)
+					h := held[k]
+					held = append(held[:k:k], held[k+1:]...)
+					if l, isList := h.v.(*value.List); isList && c.rng.Intn(2) == 0 {
+						l.First(funcGen.NewEmptyStack[value.Value]()) // half consume first
+					}
+					out := "ERR"
+					if cl, isClo := h.v.(value.Closure); isClo && cl.Args == 1 {
+						// a returned closure is called later
+						r, err := cl.Eval(funcGen.NewEmptyStack[value.Value](), value.Int(7))
+						if err == nil {
+							if sv, err := canonValue(r); err == nil {
+								out = "OK " + sv
+							}
+						}
+						want := "ERR"
+						if f2, _, err := newValueFG(true).Generate(src, "a"); err == nil {
+							if v2, err := f2.Eval(value.Int(h.a)); err == nil {
+								if c2, ok := v2.(value.Closure); ok {
+									if r2, err := c2.Eval(funcGen.NewEmptyStack[value.Value](), value.Int(7)); err == nil {
+										if sv, err := canonValue(r2); err == nil {
+											want = "OK " + sv
+										}
+									}
+								}
+							}
+						}
+						c.Count("step:late-call-of-returned-closure")
+						if out != want {
+							c.disagree++
+							c.Violation("evaluation-depends-on-history", "a closure returned by an earlier evaluation behaves differently after later evaluations",
+								map[string]any{"program": src, "argument": h.a, "step": s, "outcome": trunc(out, 200), "isolated": trunc(want, 200)})
+							ok = false
+						}
+					} else {
+						if sv, err := canonValue(h.v); err == nil {
+							out = "OK " + sv
+						}
+						c.Count("step:late-consume")
+						if out != iso[h.a] {
+							c.disagree++
+							c.Violation("evaluation-depends-on-history", "a result left unconsumed differs from the isolated evaluation when it is consumed after later evaluations",
+								map[string]any{"program": src, "argument": h.a, "step": s, "outcome": trunc(out, 200), "isolated": trunc(iso[h.a], 200)})
+							ok = false
 						}
 					}
-					c.Count("step:late-consume")
 				}
 			default:
 				a := pool[c.rng.Intn(len(pool))]
@@ -148,7 +220,7 @@ func runC10(c *Ctx) {
 					out = "ERR"
 				case mode == 0:
 					// drop the result unconsumed; compare a second evaluation instead
-					held = append(held, v)
+					held = append(held, heldResult{v, a})
 					c.Count("step:eval-dropped")
 					continue
 				case mode == 1:
